@@ -11,23 +11,19 @@ import (
 )
 
 func main() {
-	f := corpus.Get("hb/harfbuzz_reference/in-house/fonts/8339c821814d9bad7c77169332327ad8b0f33c81.ttf")
+	f := corpus.Get("hb/harfbuzz_reference/in-house/fonts/226bc2deab3846f1a682085f70c67d0421014144.ttf")
 	ft := corpus.Fonts(f)[0]
-	fmt.Println("GSUB", len(ft.GSUB.Lookups), "GPOS", len(ft.GPOS.Lookups), "kern", len(ft.Kern))
 	face := font.NewFace(ft)
 	hf := harfbuzz.NewFont(face)
-	for _, text := range [][]rune{{0x627, 0x31}, {0x627, 0x31, 0x34F}} {
-		for _, dir := range []harfbuzz.Direction{harfbuzz.LeftToRight, harfbuzz.RightToLeft} {
-			b := harfbuzz.NewBuffer()
-			b.Props = harfbuzz.SegmentProperties{Direction: dir, Script: language.Arabic}
-			b.Flags = harfbuzz.Bot | harfbuzz.Eot
-			b.AddRunes(text, 0, len(text))
-			b.Shape(hf, nil)
-			fmt.Printf("%U dir %v: ", text, dir)
-			for i, in := range b.Info {
-				fmt.Printf("%d=%d mask%#x +%d | ", in.Glyph, in.Cluster, in.Mask&7, b.Pos[i].XAdvance)
-			}
-			fmt.Println()
+	for _, lv := range []int{0, 1} {
+		b := harfbuzz.NewBuffer()
+		b.Props = harfbuzz.SegmentProperties{Direction: harfbuzz.RightToLeft, Script: language.Malayalam}
+		b.ClusterLevel = harfbuzz.ClusterLevel(lv)
+		b.AddRunes([]rune{0xd4d, 0x200c, 0xd46}, 0, 3)
+		b.Shape(hf, nil)
+		for i, in := range b.Info {
+			fmt.Printf("%d=%d +%d | ", in.Glyph, in.Cluster, b.Pos[i].XAdvance)
 		}
+		fmt.Println()
 	}
 }
